@@ -58,10 +58,10 @@ Print Assumptions C09_asf_save_prog.
 Definition tiny : list Z :=
   asf_build [OLeaf G_FILE (zeros 64); OExt HEXT_FIXED [(G_PAD, [0; 0; 0]); (repeat 9 16, [5])]; OLeaf G_PAD (zeros 300)] [7; 8; 9].
 Definition a_title : attr := mkA N_TITLE (VText [72; 105]) None None.
-Example tiny_info : asf_info tiny [a_title] = Ok (191, 3).
+Example tiny_info : asf_info tiny [a_title] = Ok (209, 3).
 Proof. vm_compute. reflexivity. Qed.
 Example tiny_keep : exists f', asf_save tiny [a_title] cb_keep = Ok f' /\ zlen f' = zlen tiny /\
-  exists s', asf_parse f' = Ok s' /\ asf_padding s' = 191.
+  exists s', asf_parse f' = Ok s' /\ asf_padding s' = 209.
 Proof.
   eexists. split; [vm_compute; reflexivity|]. split; [vm_compute; reflexivity|].
   eexists. split; vm_compute; reflexivity.
